@@ -497,6 +497,7 @@ type FuncContract struct {
 	FrameAssumed bool // `frame assumed`: the modifies list is used at call sites but not checked against the body
 	Pure      bool
 	Loops     map[int]*LoopSpec
+	Holds     []string // `holds x.lock`: the function is entered (and left) with this monitored lock held
 	ElemPtrs  []ElemPtrSpec // `elemptr res slice idx`: pointer result res is &slice[idx]
 	Maintain  []*Clause // running invariants: proved, then assumed, after every top-level statement of the body
 	Ghosts    []GhostDecl
@@ -760,6 +761,8 @@ func (db *ContractDB) loadFile(path, pkgPath string) {
 						cur.Uses = append(cur.Uses, f)
 					}
 				}
+			case "holds":
+				cur.Holds = append(cur.Holds, strings.Fields(rest)...)
 			case "elemptr":
 				// elemptr kv r len(h): the pointer result kv is &r[len(h)]
 				fs := strings.SplitN(strings.TrimSpace(rest), " ", 3)
